@@ -653,7 +653,17 @@ class Interp:
             return [st]
         if isinstance(t, (ast.Tuple, ast.List)):
             cur = [st]
+            star = [i for i, el in enumerate(t.elts)
+                    if isinstance(el, ast.Starred)]
             for i, el in enumerate(t.elts):
+                if star and i == star[0] and i == len(t.elts) - 1:
+                    # a, *rest = v   ->  rest = v[i:]
+                    sub = ('slice', v, T.C(i), None)
+                    nxt = []
+                    for c in cur:
+                        nxt.extend(self.assign(el.value, sub, c, node))
+                    cur = nxt
+                    continue
                 if v[0] == 'tuple' and i < len(v[1]):
                     sub = v[1][i]
                 elif v[0] == 'lv':
